@@ -680,6 +680,7 @@ func (s *Store) Has(key []byte) (bool, error) {
 	if !found || err != nil {
 		return false, err
 	}
+	verifhook.Yield("store.Has.afterIndexGet")
 
 	// The index stores only prefixes, hence check if the given key fully matches the
 	// key that is stored in the primary storage before returning the actual value.
@@ -704,6 +705,7 @@ func (s *Store) GetSize(key []byte) (types.Size, bool, error) {
 	if !found {
 		return 0, false, nil
 	}
+	verifhook.Yield("store.GetSize.afterIndexGet")
 
 	// The index stores only prefixes, hence check if the given key fully matches the
 	// key that is stored in the primary storage before returning the actual value.
